@@ -799,6 +799,9 @@ def post_check(results, tier, run_fresh):
         libs2 = libs + [l for l in ('PPY', 'BensonGA') if l not in libs]
         if tier == 'quick':
             libs2 = libs2[:3]
+        # loaded once before the property sets were registered (warning,
+        # no data), then the import, then loaded again: same contents
+        late = run_fresh([{'lib': l, 'early_load': l} for l in libs])
         plain2 = plain + run_fresh([{'lib': l} for l in libs2[len(libs):]])
         dedup = run_fresh([{'lib': l, 'env': {ENVVAR: dst2}} for l in libs2])
     finally:
@@ -824,6 +827,16 @@ def post_check(results, tier, run_fresh):
                          'lives': []}
             v['run'] = 'real-fs-' + l
             viols.append(v)
+    for l, a, b in zip(libs, plain, late):
+        if a is None or b is None or a != b:
+            v = core.violation(
+                PROP, 'identical-contents', 'real-fs',
+                'real-file-system|load-after-late-registration-differs',
+                {'lib': l, 'bundled': a, 'after_early_load': b})
+            v['spec'] = {'property': PROP, 'id': 'real-fs', 'roots': [],
+                         'lives': []}
+            v['run'] = 'real-fs-late-' + l
+            viols.append(v)
     for l, a, b in zip(libs2, plain2, dedup):
         if a is None or b is None or a != b:
             v = core.violation(
@@ -835,7 +848,7 @@ def post_check(results, tier, run_fresh):
                          'lives': []}
             v['run'] = 'real-fs-dedup-' + l
             viols.append(v)
-    return viols, {'real_file_system_scenarios': 2 * len(libs) + len(libs2),
+    return viols, {'real_file_system_scenarios': 3 * len(libs) + len(libs2),
                    'symbolic_links_in_deduplicated_copy': nlinks}
 
 
